@@ -13,6 +13,8 @@ is found by brute force (bit masks over the smaller side).  `exp` is that number
 In the decimal stream the operator is DEFINED by exact Fractions: duplicates are merged exactly, strings
 whose coefficients cancel over the rationals are not part of the operator (even if 0.1 + 0.2 - 0.3 != 0
 in binary64) and must not occupy a bond; the package receives the correctly rounded doubles.
+A logger around symbolic_mpo.bipartite_vertex_cover records with which algorithm the cover routine is
+really called (dispatch_ok: one call per site, all with the requested algorithm).
 The dense matrix of the Mpo is also compared with the kron-sum of the terms (sanity of the
 decomposition that produced those bond dimensions).
 """
@@ -24,6 +26,19 @@ import numpy as np
 
 from renormalizer import Model, Mpo, Op
 from renormalizer.model import basis as ba
+import renormalizer.mps.symbolic_mpo as _sm
+
+# logger around the name `bipartite_vertex_cover` inside symbolic_mpo: which algorithm is really used?
+_cover_calls = []
+_orig_cover = _sm.bipartite_vertex_cover
+
+
+def _logged_cover(bigraph, algo="Hopcroft-Karp"):
+    _cover_calls.append(algo)
+    return _orig_cover(bigraph, algo=algo)
+
+
+_sm.bipartite_vertex_cover = _logged_cover
 
 SYMS = ["I", "sigma_x", "sigma_z", "sigma_+", "sigma_-"]
 MATS = {
@@ -88,12 +103,18 @@ def run_case(case, algos):
             for s in t:
                 m = np.kron(m, MATS[s])
             dense_ref += float(c) * m
-    out = {"exp": exp, "nL": nLs, "nR": nRs, "bd": {}, "dense_err": {}, "err": {}}
+    out = {"exp": exp, "nL": nLs, "nR": nRs, "bd": {}, "dense_err": {}, "err": {}, "dispatch_ok": {}, "cover_calls": {}}
     model = Model(basis, ops)
     for algo in algos:
         try:
+            del _cover_calls[:]
             mpo = Mpo(model, algo=algo)
             out["bd"][algo] = [int(x) for x in mpo.bond_dims]
+            # a graph algorithm must decide every site through bipartite_vertex_cover(algo=<requested>)
+            # (one call per site; none when the merged table has a single term: construct_symbolic_mpo shortcut)
+            want = n if len(keys) > 1 else 0
+            out["cover_calls"][algo] = sorted(set(_cover_calls)) + [len(_cover_calls)]
+            out["dispatch_ok"][algo] = (len(_cover_calls) == want and all(a == algo for a in _cover_calls))
             if dense_ref is not None:
                 d = np.asarray(mpo.todense())
                 out["dense_err"][algo] = float(np.max(np.abs(d - dense_ref)) / max(1.0, float(np.max(np.abs(dense_ref)))))
